@@ -36,9 +36,13 @@ def shards(tier, seed):
     n = 15 if tier == 'quick' else 46
     per = 2 if tier == 'quick' else 6
     out = [{'shard': 'u%d' % i, 'mode': 'universe', 'tier': tier, 'seed': seed, 'first': i * per, 'count': per} for i in range(n)]
-    out.append({'shard': 'exh8', 'mode': 'exhaustive', 'bits': 8, 'tier': tier, 'seed': seed})
+    out.append({'shard': 'exh8', 'mode': 'exhaustive', 'bits': 8, 'tier': tier, 'seed': seed, 'families': list(FAMILIES)})
     if tier == 'thorough':
-        out.append({'shard': 'exh16', 'mode': 'exhaustive', 'bits': 16, 'tier': tier, 'seed': seed})
+        # 16-bit sweep: one shard per (family, signedness) so that it finishes in minutes
+        for fam in FAMILIES:
+            for signed in (True, False):
+                out.append({'shard': 'exh16/%s/%s' % (fam, 's' if signed else 'u'), 'mode': 'exhaustive', 'bits': 16, 'tier': tier,
+                            'seed': seed, 'families': [fam], 'signed': signed})
     return out
 
 
@@ -79,6 +83,12 @@ class Family(object):
         if self.fam not in ('xml', 'soap11') and uses_xml_only(self.ir, md, args):
             return False
         if self.fam == 'httprpc':
+            try:
+                if any(refflat.has_unspellable_items(self.ir, t, v) or refflat.unspellable_none(self.ir, t, v)
+                       for (_, t), v in zip(md['args'], args) if not _has_marker(v)):
+                    return False
+            except Exception:
+                pass
             if val is refval.NIL:
                 return False
             if isinstance(val, str) and val == '':
@@ -131,6 +141,16 @@ class Family(object):
             f = None
         c = f[0] if f else None
         return c.decode() if isinstance(c, bytes) else c
+
+
+def _has_marker(v):
+    if v is refval.NIL or isinstance(v, refval.Raw):
+        return True
+    if isinstance(v, dict):
+        return any(_has_marker(x) for x in v.values())
+    if isinstance(v, (list, tuple)):
+        return any(_has_marker(x) for x in v)
+    return False
 
 
 def uses_xml_only(ir, md, args):
@@ -279,7 +299,7 @@ def run_exhaustive(R, spec):
     ir = {'uid': 5000 + bits, 'tns': 'urn:vf:c05x', 'types': [T, Tn], 'services': [{'name': 'S', 'methods': [
         {'name': 'mx', 'args': [['a', {'prim': sk, 'facets': {}}], ['b', {'prim': uk, 'facets': {}}], ['o', {'ref': 'T0'}]], 'returns': [], 'style': 'wrapped'},
         {'name': 'mn', 'args': [['a', {'prim': sk, 'facets': {}}], ['b', {'prim': uk, 'facets': {}}], ['o', {'ref': 'T1'}]], 'returns': [], 'style': 'wrapped'}]}]}
-    fams = {fam: Family(ir, fam, rng) for fam in FAMILIES}
+    fams = {fam: Family(ir, fam, rng) for fam in spec.get('families', FAMILIES)}
     lo_s, hi_s = -2 ** (bits - 1), 2 ** (bits - 1) - 1
     lo_u, hi_u = 0, 2 ** bits - 1
     margin = 4
@@ -296,6 +316,8 @@ def run_exhaustive(R, spec):
                      ('array_member', 2, ('sl', 0), sv), ('seq_member', 2, ('ul', 0), uv)]
         if mname == 'mx':
             positions += [('attribute', 2, ('sa',), sv), ('attribute', 2, ('ua',), uv)]
+        if 'signed' in spec:
+            positions = [p for p in positions if (p[3] is sv) == spec['signed']]
         for pos, ai, path, values in positions:
             for v in values:
                 args = list(base[mname])
@@ -323,7 +345,8 @@ def post_merge(total, tier, seed):
 def replay(v, R):
     c = v['repro']
     if c.get('uid', 0) >= 5000:
-        run_exhaustive(R, {'bits': c['uid'] - 5000, 'seed': c['seed'], 'shard': 'exh%d' % (c['uid'] - 5000), 'tier': 'thorough'})
+        run_exhaustive(R, {'bits': c['uid'] - 5000, 'seed': c['seed'], 'shard': 'exh%d' % (c['uid'] - 5000), 'tier': 'thorough',
+                           'families': [c.get('family')] if c.get('family') else list(FAMILIES)})
     else:
         run_universe(R, c['seed'], c['uid'], 'thorough')
     for x in R.violations[:10]:
